@@ -44,8 +44,8 @@ theorem countU_nodup (z : UInt64) (c : List Entry) (u : UInt64) (hu : u ≠ z) (
     rw [units_cons z] at hnd ⊢
     by_cases hez : e.unit = z
     · simp only [hez, if_true] at hnd ⊢
-      have : ¬ z = u := fun h => hu h.symm
-      simp [List.filter_cons, this, ih hnd]
+      have h3 : ¬ e.unit = u := by rw [hez]; exact fun h => hu h.symm
+      simp [List.filter_cons, h3, ih hnd]
     · simp only [hez, if_false, List.nodup_cons] at hnd ⊢
       by_cases heu : e.unit = u
       · subst heu
@@ -484,9 +484,9 @@ def Legal (s : St) : Op → Prop
   | .use _ => True
   | .lookup u => okRef s u
 
-theorem ainv_log_other (s : St) (t p : Nat) (hi : AInv s) :
-    AInv { s with log := .create p t s.map.nul :: s.log } := by
-  refine ⟨hi.wf, hi.bi, hi.user_ok, hi.map_ok, ?_, ?_⟩
+theorem ainv_log_other (s : St) (t p : Nat) (m : Nat) (hi : AInv s) :
+    AInv { s with log := .create p t s.map.nul m :: s.log } := by
+  refine ⟨hi.wf, hi.bi, hi.user_ok, hi.map_ok, ?_, ?_, ?_, ?_⟩
   · intro u p' hu
     have := hi.bridge u p' hu
     simp only [liveL]
@@ -494,12 +494,21 @@ theorem ainv_log_other (s : St) (t p : Nat) (hi : AInv s) :
     simp only [this, if_false]
     exact hi.bridge u p' hu
   · simp only [LogOK]; exact ⟨fun h => absurd rfl h, hi.log_ok⟩
+  · intro u hu
+    have : ¬ s.map.nul = u := fun h => hu h.symm
+    simp only [crT, frT, this, if_false, Nat.zero_add]
+    exact hi.cnt u hu
+  · simp only [CountOK]; exact ⟨fun h => absurd rfl h, hi.count_ok⟩
 
+/-- `create_unit` returned `nu`, the table could not take it (no memory), `free_unit(nu)` follows;
+`m` = how often the table holds `nu` throughout (it is unchanged) -/
 theorem ainv_log_mem' (s : St) (t p : Nat) (nu : UInt64) (hi : AInv s) (hnu : nu ≠ s.map.nul)
     (hf : live s nu p = false) :
-    AInv { s with log := .free p nu :: .create p t nu :: s.log } := by
+    AInv { s with log := .free p nu (tblCount s.map nu) :: .create p t nu (tblCount s.map nu) :: s.log } := by
   have hl : liveL s.map.nul s.log nu p = false := by rw [hi.bridge nu p hnu]; exact hf
-  refine ⟨hi.wf, hi.bi, hi.user_ok, hi.map_ok, ?_, ?_⟩
+  have hm := tblCount_wf s.map nu hi.wf hnu
+  have hc := hi.cnt nu hnu
+  refine ⟨hi.wf, hi.bi, hi.user_ok, hi.map_ok, ?_, ?_, ?_, ?_⟩
   · intro u p' hu
     simp only [liveL]
     by_cases hc : nu = u ∧ p = p'
@@ -512,18 +521,28 @@ theorem ainv_log_mem' (s : St) (t p : Nat) (nu : UInt64) (hi : AInv s) (hnu : nu
       exact hi.bridge u p' hu
   · simp only [LogOK, liveL]
     refine ⟨by simp [hnu], fun _ => hl, hi.log_ok⟩
+  · intro u hu
+    simp only [crT, frT]
+    have := hi.cnt u hu
+    by_cases hx : nu = u
+    · simp only [hx, if_true]; omega
+    · simp only [hx, if_false]; omega
+  · simp only [CountOK, crT, frT, if_true]
+    refine ⟨by omega, fun _ => by omega, hi.count_ok⟩
 
 theorem ainv_log_mem (s : St) (t p : Nat) (nu : UInt64) (hi : AInv s) (hnu : nu ≠ s.map.nul)
     (hf : absMap s.map nu = none) :
-    AInv { s with log := .free p nu :: .create p t nu :: s.log } :=
+    AInv { s with log := .free p nu (tblCount s.map nu) :: .create p t nu (tblCount s.map nu) :: s.log } :=
   ainv_log_mem' s t p nu hi hnu (by simp [live, hf])
 
 theorem newUserUnit_cases (s : St) (t p : Nat) (nu : UInt64) (mem : Bool) :
-    (nu = s.map.nul ∧ newUserUnit s t p nu mem = ({ s with log := .create p t nu :: s.log }, .other)) ∨
+    (nu = s.map.nul ∧
+      newUserUnit s t p nu mem = ({ s with log := .create p t nu (tblCount s.map nu) :: s.log }, .other)) ∨
     (nu ≠ s.map.nul ∧ mapThread s.map nu t mem = none ∧
-      newUserUnit s t p nu mem = ({ s with log := .free p nu :: .create p t nu :: s.log }, .mem)) ∨
+      newUserUnit s t p nu mem =
+        ({ s with log := .free p nu (tblCount s.map nu) :: .create p t nu (tblCount s.map nu) :: s.log }, .mem)) ∨
     (nu ≠ s.map.nul ∧ ∃ m', mapThread s.map nu t mem = some m' ∧
-      newUserUnit s t p nu mem = ({ s with map := m', log := .create p t nu :: s.log }, .ok)) := by
+      newUserUnit s t p nu mem = ({ s with map := m', log := .create p t nu (tblCount s.map nu) :: s.log }, .ok)) := by
   simp only [newUserUnit]
   by_cases h0 : nu = s.map.nul
   · left; simp [h0]
@@ -538,8 +557,11 @@ theorem ainv_new (s : St) (t p : Nat) (nu : UInt64) (mem : Bool) (m' : UM) (hi :
     (hp : s.isBuiltin p = false) (hnu : nu ≠ s.map.nul) (hf : absMap s.map nu = none)
     (hm : mapThread s.map nu t mem = some m')
     (hold : ∀ u, (s.thr t).unit ≠ .user u) :
-    AInv { s with map := m', log := .create p t nu :: s.log, thr := updT s.thr t ⟨.user nu, some p⟩ } := by
+    AInv { s with map := m', log := .create p t nu (tblCount s.map nu) :: s.log,
+                  thr := updT s.thr t ⟨.user nu, some p⟩ } := by
   obtain ⟨hw', hen, hmap', _, _⟩ := (map_spec s.map nu t mem hi.wf hnu hf).2 m' hm
+  have hc0 : tblCount s.map nu = 0 := by rw [tblCount_wf s.map nu hi.wf hnu, hf]; rfl
+  rw [hc0]
   refine ainv_move s _ t none (some (nu, p)) ⟨.user nu, some p⟩ hi hold ⟨hnu, hf, hp, rfl⟩ rfl hen.2 rfl hw' ?_ ?_
   · intro x
     rw [hmap' x]
@@ -553,10 +575,13 @@ theorem ainv_new (s : St) (t p : Nat) (nu : UInt64) (mem : Bool) (m' : UM) (hi :
 theorem ainv_drop (s : St) (t : Nat) (u : UInt64) (oldp : Nat) (th' : Thr) (hi : AInv s)
     (hthr : s.thr t = ⟨.user u, some oldp⟩) (hth' : th'.unit = .null ∨ th'.unit = .builtin t) :
     ∃ m', unmapThread s.map u = some m' ∧
-      AInv { s with map := m', log := .free oldp u :: s.log, thr := updT s.thr t th' } := by
+      AInv { s with map := m', log := .free oldp u (tblCount m' u) :: s.log, thr := updT s.thr t th' } := by
   obtain ⟨hu0, hmu, _, _⟩ := hi.user_ok t u (by rw [hthr])
   obtain ⟨m', hm, hw', hen, hmap', _⟩ := unmap_spec s.map u hi.wf hu0 (by rw [hmu]; simp)
   refine ⟨m', hm, ?_⟩
+  have hc0 : tblCount m' u = 0 := by
+    rw [tblCount_wf m' u hw' (by rw [hen.2]; exact hu0), hmap' u]; simp
+  rw [hc0]
   refine ainv_move s _ t (some (u, oldp)) none th' hi hthr hth' rfl hen.2 rfl hw' ?_ ?_
   · intro x
     rw [hmap' x]
@@ -571,7 +596,7 @@ theorem ainv_swap (s : St) (t p : Nat) (u nu : UInt64) (oldp : Nat) (mem : Bool)
     (hthr : s.thr t = ⟨.user u, some oldp⟩) (hp : s.isBuiltin p = false) (hnu : nu ≠ s.map.nul)
     (hf : absMap s.map nu = none) (hm : mapThread s.map nu t mem = some m') :
     ∃ m'', unmapThread m' u = some m'' ∧
-      AInv { s with map := m'', log := .free oldp u :: .create p t nu :: s.log,
+      AInv { s with map := m'', log := .free oldp u (tblCount m'' u) :: .create p t nu (tblCount s.map nu) :: s.log,
                     thr := updT s.thr t ⟨.user nu, some p⟩ } := by
   obtain ⟨hu0, hmu, _, _⟩ := hi.user_ok t u (by rw [hthr])
   obtain ⟨hw', hen1, hmap', _, _⟩ := (map_spec s.map nu t mem hi.wf hnu hf).2 m' hm
@@ -579,6 +604,10 @@ theorem ainv_swap (s : St) (t p : Nat) (u nu : UInt64) (oldp : Nat) (mem : Bool)
   have hmu' : absMap m' u ≠ none := by rw [hmap' u]; simp [hne, hmu]
   obtain ⟨m'', hm2, hw'', hen2, hmap'', _⟩ := unmap_spec m' u hw' (by rw [hen1.2]; exact hu0) hmu'
   refine ⟨m'', hm2, ?_⟩
+  have hc1 : tblCount s.map nu = 0 := by rw [tblCount_wf s.map nu hi.wf hnu, hf]; rfl
+  have hc2 : tblCount m'' u = 0 := by
+    rw [tblCount_wf m'' u hw'' (by rw [hen2.2, hen1.2]; exact hu0), hmap'' u]; simp
+  rw [hc1, hc2]
   refine ainv_move s _ t (some (u, oldp)) (some (nu, p)) ⟨.user nu, some p⟩ hi hthr ⟨hnu, hf, hp, rfl⟩
     rfl (hen2.2.trans hen1.2) rfl hw'' ?_ ?_
   · intro x
@@ -602,11 +631,17 @@ theorem ainv_swap_same (s : St) (t p : Nat) (u : UInt64) (oldp : Nat) (mem : Boo
     (hthr : s.thr t = ⟨.user u, some oldp⟩) (hp : s.isBuiltin p = false) (hne : oldp ≠ p)
     (hm : mapThread s.map u t mem = some m1) :
     ∃ m2, unmapThread m1 u = some m2 ∧
-      AInv { s with map := m2, log := .free oldp u :: .create p t u :: s.log,
+      AInv { s with map := m2, log := .free oldp u (tblCount m2 u) :: .create p t u (tblCount s.map u) :: s.log,
                     thr := updT s.thr t ⟨.user u, some p⟩ } := by
   obtain ⟨hu0, hmu, _, _⟩ := hi.user_ok t u (by rw [hthr])
   obtain ⟨m2, hm2, hw2, hen, hmap2, _⟩ := (remap_spec s.map u t mem hi.wf hu0 hmu).2 m1 hm
   refine ⟨m2, hm2, ?_⟩
+  have hc1 : tblCount s.map u = 1 := by rw [tblCount_wf s.map u hi.wf hu0, hmu]; rfl
+  have hc2 : tblCount m2 u = 1 := by
+    rw [tblCount_wf m2 u hw2 (by rw [hen.2]; exact hu0), hmap2 u, hmu]; rfl
+  rw [hc1, hc2]
+  have hcu := hi.cnt u hu0
+  rw [hmu] at hcu
   have hthr_o : ∀ t', t' ≠ t → updT s.thr t ⟨.user u, some p⟩ t' = s.thr t' := by
     intro t' h; simp [updT, h]
   have hlive : ∀ x p', (match absMap m2 x with
@@ -625,7 +660,7 @@ theorem ainv_swap_same (s : St) (t p : Nat) (u : UInt64) (oldp : Nat) (mem : Boo
           have := hi.map_ok x t1 hmx
           rw [hthr] at this; simp only [URef.user.injEq] at this; exact hx this.symm
         simp only [hthr_o t1 this]
-  refine ⟨hw2, ?_, ?_, ?_, ?_, ?_⟩
+  refine ⟨hw2, ?_, ?_, ?_, ?_, ?_, ?_, ?_⟩
   · intro t1 t2 h
     by_cases ht : t1 = t
     · subst ht; simp [updT] at h
@@ -682,11 +717,24 @@ theorem ainv_swap_same (s : St) (t p : Nat) (u : UInt64) (oldp : Nat) (mem : Boo
     refine ⟨?_, fun _ => hl2, hi.log_ok⟩
     simp only [liveL]
     rw [if_neg this]; exact hl1
+  · intro x hx0
+    rw [hen.2] at hx0
+    simp only [crT, frT, hmap2]
+    have := hi.cnt x hx0
+    by_cases hx : u = x
+    · subst hx; simp only [if_true]; omega
+    · simp only [hx, if_false]; omega
+  · show CountOK m2.nul _
+    rw [hen.2]
+    simp only [CountOK, crT, frT, if_true]
+    simp at hcu
+    exact ⟨by omega, fun _ => by omega, hi.count_ok⟩
 
 /-- what a failed (re)association leaves behind -/
 def RolledBack (s s' : St) (t p : Nat) (nu : UInt64) : Prop :=
   s'.thr = s.thr ∧ s'.map = s.map ∧ s'.isBuiltin = s.isBuiltin ∧
-  (s'.log = .create p t s.map.nul :: s.log ∨ (nu ≠ s.map.nul ∧ s'.log = .free p nu :: .create p t nu :: s.log))
+  (s'.log = .create p t s.map.nul (tblCount s.map s.map.nul) :: s.log ∨
+   (nu ≠ s.map.nul ∧ s'.log = .free p nu (tblCount s.map nu) :: .create p t nu (tblCount s.map nu) :: s.log))
 
 theorem setAssocCore_spec (s : St) (t : Nat) (unit : URef) (p : Nat) (nu : UInt64) (mem : Bool) (hi : AInv s)
     (hu : (s.thr t).unit = unit) (hnn : unit ≠ .null) (hf : fresh s nu ∨ unit = .user nu) :
@@ -717,7 +765,7 @@ theorem setAssocCore_spec (s : St) (t : Nat) (unit : URef) (p : Nat) (nu : UInt6
       rcases newUserUnit_cases s t0 p nu mem with ⟨h0, he⟩ | ⟨h0, hm, he⟩ | ⟨h0, m', hm, he⟩
       · rw [he]; simp only [reduceCtorEq, if_false]
         subst h0
-        refine ⟨_, .other, rfl, ainv_log_other s t0 p hi, ?_, by simp, by simp⟩
+        refine ⟨_, .other, rfl, ainv_log_other s t0 p _ hi, ?_, by simp, by simp⟩
         intro _; exact ⟨rfl, rfl, rfl, Or.inl rfl⟩
       · rw [he]; simp only [reduceCtorEq, if_false]
         have hfn : absMap s.map nu = none := by
@@ -769,7 +817,7 @@ theorem setAssocCore_spec (s : St) (t : Nat) (unit : URef) (p : Nat) (nu : UInt6
           rcases newUserUnit_cases s t p nu mem with ⟨h0, he⟩ | ⟨h0, hm, he⟩ | ⟨h0, m', hm, he⟩
           · rw [he]; simp only [reduceCtorEq, if_false]
             subst h0
-            refine ⟨_, .other, rfl, ainv_log_other s t p hi, ?_, by simp, by simp⟩
+            refine ⟨_, .other, rfl, ainv_log_other s t p _ hi, ?_, by simp, by simp⟩
             intro _; exact ⟨rfl, rfl, rfl, Or.inl rfl⟩
           · rw [he]; simp only [reduceCtorEq, if_false]
             by_cases hsm : nu = u
@@ -830,7 +878,7 @@ theorem initPool_spec (s : St) (t p : Nat) (nu : UInt64) (mem : Bool) (hi : AInv
     rcases newUserUnit_cases s t p nu mem with ⟨h0, he⟩ | ⟨h0, hm, he⟩ | ⟨h0, m', hm, he⟩
     · rw [he]; simp only [reduceCtorEq, if_false]
       subst h0
-      exact ⟨ainv_log_other s t p hi, fun _ => ⟨rfl, rfl, rfl, Or.inl rfl⟩, by simp, by simp⟩
+      exact ⟨ainv_log_other s t p _ hi, fun _ => ⟨rfl, rfl, rfl, Or.inl rfl⟩, by simp, by simp⟩
     · rw [he]; simp only [reduceCtorEq, if_false]
       have hfn : absMap s.map nu = none := by rcases hf with h | h; exact absurd h h0; exact h
       refine ⟨ainv_log_mem s t p nu hi h0 hfn, fun _ => ⟨rfl, rfl, rfl, Or.inr ⟨h0, rfl⟩⟩, by simp, ?_⟩
@@ -875,11 +923,13 @@ theorem poolUse_spec (s : St) (t : Nat) (hi : AInv s) : AInv (poolUse s t) := by
     cases hpool : (s.thr t).pool with
     | none => exact hi
     | some p =>
-      refine ⟨hi.wf, hi.bi, hi.user_ok, hi.map_ok, ?_, ?_⟩
+      refine ⟨hi.wf, hi.bi, hi.user_ok, hi.map_ok, ?_, ?_, ?_, ?_⟩
       · intro x p' hx; simp only [liveL]; exact hi.bridge x p' hx
       · simp only [LogOK]
         refine ⟨?_, hi.log_ok⟩
         rw [hi.bridge u p hu0]; simp [live, hmu, hpool]
+      · intro x hx; simp only [crT, frT]; exact hi.cnt x hx
+      · simp only [CountOK]; exact hi.count_ok
 
 /-- `ABT_unit_get_thread` on a legal handle returns the work unit that carries it -/
 theorem unitThread_spec (s : St) (u : URef) (hi : AInv s) (hl : okRef s u) :
